@@ -882,7 +882,10 @@ def _reduce(a, f, axis, keepdims, identity, shadow_fn=None):
     keep = [i for i in range(p.ndim) if i not in axes]
     q = _np.transpose(p, keep + list(axes))
     oshape = tuple(p.shape[i] for i in keep)
-    q = q.reshape(oshape + (-1,))
+    rlen = 1
+    for i in axes:
+        rlen *= p.shape[i]
+    q = q.reshape(oshape + (rlen,))
     res = _np.empty(oshape, dtype=object)
     for idx in _np.ndindex(*oshape):
         items = list(q[idx])
